@@ -40,8 +40,8 @@ Ltac elem_tac :=
 
 Ltac one_face_tie :=
   abs_facts;
-  unfold slice_faces_plane;
-  cbn [length Nat.eqb mask_of rbind repeat option_map map forallb Nat.ltb Nat.leb seq existsb orb andb];
+  unfold slice_triangles_by_plane, slice_faces_plane;
+  cbn [length Nat.eqb mask_of rbind repeat option_map flatnonzero nonzero_from map forallb Nat.ltb Nat.leb seq existsb orb andb];
   unfold snapped_dot; snap_tac;
   repeat match goal with |- context [vsign ROps ?t ?d] =>
     first [ replace (vsign ROps t d) with (-1)%Z by (symmetry; sign_tac)
